@@ -72,6 +72,11 @@ def cases(tier, seed):
         if cat["CalendarType"] == 2 and sp["weather"]["kind"] == "synth" and i % 3 != 2:
             # warm and cool years: the thermal calendar of a later season differs from the first one's
             sp["weather"].setdefault("params", {})["interannual"] = float(gen.pick(rng, [1.5, 2.5, 3.5]))
+        if cat["CalendarType"] == 2 and i % 2 == 0:
+            # the three ways of counting degree days, and nights colder than the base temperature
+            sp["crop"]["kw"]["GDDmethod"] = int(gen.pick(rng, [1, 2, 2, 3]))
+            if sp["weather"]["kind"] == "synth" and i % 4 == 0:
+                sp["weather"]["temp_add"] = float(gen.pick(rng, [-3.0, -5.0]))
         if cat["CalendarType"] == 2:
             mth, dd = [int(x) for x in sp["crop"]["planting"].split("/")]
             h = dt.date(2001, mth, dd) + dt.timedelta(days=min(340, gen.crop_len_days(sp["crop"]["name"]) + 70))
